@@ -1,5 +1,5 @@
 """K7a: guard dominance for checked unsigned subtraction (a pure CFG/def-use fact, no arithmetic solving)."""
-from .model import const_val, short, Tracer
+from .model import const_val, short, Tracer, Origin
 from .util import tracer, bool_switches, where
 
 IDENTITY_SUFFIX = ("::new", "::as_value", "::into", "::from")
@@ -10,6 +10,9 @@ MUL_OPS = ("Mul", "MulWithOverflow")
 
 
 UNSIGNED = ["u8", "u16", "u32", "u64", "usize", "u128"]
+
+
+NEWTYPE_VAL = {"f:Offset.val", "f:Size.val", "f:Length.val", "f:Count.val", "f:HashValue.val"}
 
 
 def _is_identity(t):
@@ -67,6 +70,10 @@ class Canon:
         pl = op["pl"]
         if depth > 12:
             return ("?",)
+        if len(os_) == 1 and os_[0].proj and os_[0].proj[-1] in NEWTYPE_VAL:
+            # `x.val` of a semantic newtype is `x.as_value()`: the wrapper and its representation are one value
+            o0 = os_[0]
+            os_ = [Origin(o0.kind, o0.data, o0.proj[:-1], o0.block)]
         if len(os_) != 1:
             name = self.fn.local_name(pl["l"]) or "_%d" % pl["l"]
             return ("var", pl["l"], tuple(e for e in pl["p"] if e != "*"), name)
